@@ -678,6 +678,7 @@ def rule_pseudoavg(ctx):
   probs = []
   it = as_poly(vis["iter"]).as_atom() if not isinstance(vis["iter"], Seq) and vis["iter"] is not None else None
   whole = it is not None and ((it.kind == "range" and len(it.args) == 1 and ratfun_eq(as_poly(it.args[0]), m)) or Poly.atom(it) == srt or
+                             (it.kind == "range" and len(it.args) == 2 and ratfun_eq(as_poly(it.args[1]) - as_poly(it.args[0]), m)) or
                              (it.kind == "enumerate" and len(it.args) == 1 and as_poly(it.args[0]) == srt))
   if not whole:
     probs.append("the scan does not run over all len(a) prefixes")
@@ -697,8 +698,24 @@ def rule_pseudoavg(ctx):
       sxv = nm
   if sxv is None:
     probs.append("no prefix sum of the sorted residues is maintained")
+  def strict_less(fcs):
+    """(d, best) pairs for which the facts say d < best, and pairs for which they say d >= best (either spelling)"""
+    lt, ge = [], []
+    for fc in fcs:
+      if fc[0] != "cmp" or isinstance(fc[2], Seq) or isinstance(fc[3], Seq) or not isinstance(fc[2], (Poly, int)) or not isinstance(fc[3], (Poly, int)):
+        continue
+      l_, r_ = as_poly(fc[2]), as_poly(fc[3])
+      if fc[1] == "Lt":
+        lt.append((l_, r_))
+      elif fc[1] == "Gt":
+        lt.append((r_, l_))
+      elif fc[1] == "GtE":
+        ge.append((l_, r_))
+      elif fc[1] == "LtE":
+        ge.append((r_, l_))
+    return lt, ge
   for kind, val, s_, since, v2 in paths:
-    if kind != "fall":
+    if kind not in ("fall", "continue"):
       probs.append("the scan is left by `%s` before every prefix has been tried: the variance change is not unimodal in j, a later prefix can be better" % kind)
   if sxv is not None and not probs:
     SX = as_poly(head[sxv]) + sym.mk("idx", srt, k)       # prefix sum including element i
@@ -708,9 +725,9 @@ def rule_pseudoavg(ctx):
     bestd = bestj = None
     for kind, val, s_, since, v2 in paths:
       newf = s_.facts[len(vis["head"].facts):]
-      for fc in newf:
-        if fc[0] == "cmp" and fc[1] in ("Lt", "GtE") and not isinstance(fc[2], Seq) and not isinstance(fc[3], Seq):
-          d, b_ = as_poly(fc[2]), as_poly(fc[3])
+      lt_, ge_ = strict_less(newf)
+      for d, b_ in lt_ + ge_:
+        if True:
           if (d * n - want_n).is_zero():
             cmpv = d
             for nm in info["modified"]:
@@ -721,7 +738,7 @@ def rule_pseudoavg(ctx):
     else:
       for kind, val, s_, since, v2 in paths:
         newf = s_.facts[len(vis["head"].facts):]
-        better = any(fc[0] == "cmp" and fc[1] == "Lt" and as_poly(fc[2]) == cmpv for fc in newf if not isinstance(fc[2], Seq))
+        better = any(d_ == cmpv for d_, b2_ in strict_less(newf)[0])
         nd = as_poly(s_.env[bestd])
         if better and nd != cmpv:
           probs.append("a better prefix does not replace the running best")
@@ -734,12 +751,12 @@ def rule_pseudoavg(ctx):
         good = True
         for kind, val, s_, since, v2 in paths:
           newf = s_.facts[len(vis["head"].facts):]
-          better = any(fc[0] == "cmp" and fc[1] == "Lt" and not isinstance(fc[2], Seq) and as_poly(fc[2]) == cmpv for fc in newf)
+          better = any(d_ == cmpv for d_, b2_ in strict_less(newf)[0])
           cur = s_.env.get(nm)
           if cur is None or isinstance(cur, (Seq, Const, tuple)) or as_poly(cur) != (j if better else as_poly(head[nm])):
             good = False
-        if good:
-          bestj = nm
+        if good and (bestj is None or (isinstance(pre.get(nm), (Const, Poly)) and as_poly(pre[nm]).is_zero())):
+          bestj = nm          # (the loop variable itself also 'equals j'; the tracked length is the one that starts at 0)
       if not (isinstance(pre.get(bestd), (Const, Poly)) and as_poly(pre[bestd]).is_zero()):
         probs.append("the running best does not start at 0 (no shift)")
       if bestj is None or not (isinstance(pre.get(bestj), (Const, Poly)) and as_poly(pre[bestj]).is_zero()):
@@ -802,6 +819,110 @@ def rule_isqrt_small(ctx):
   ctx.record(R, f.where, "k < 3: exhaustive search for a with a*a*n == 1 (mod 2^k)", not probs, "; ".join(sorted(set(probs))) or "first a in range(2^k) passing the congruence, else None")
 
 
+def _index_filter(w, val):
+  """(T, lo, hi) when val is [i for i in range(lo, hi) if T[i]] - as a comprehension over enumerate(T) / range(..), or as a loop that appends the
+  index exactly when its flag is set; else None."""
+  a = val.as_atom() if isinstance(val, Poly) else None
+  if a is None:
+    return None
+  if a.kind == "map" and len(a.args) == 3:
+    elt, bv2, F = as_poly(a.args[0]), Poly.atom(a.args[1]), as_poly(a.args[2])
+    fa = F.as_atom()
+    if fa is None or fa.kind != "filter" or len(fa.args) != 2:
+      return None
+    ca = as_poly(fa.args[1]).as_atom()
+    conds = sym.FILTER_CONDS.get(ca.args[0]) if ca is not None and ca.kind == "cond" else None
+    if not conds or len(conds) != 1 or conds[0][0] != "truthy":
+      return None
+    flag = as_poly(conds[0][1]).as_atom()
+    sa = as_poly(fa.args[0]).as_atom()
+    if sa is None or flag is None:
+      return None
+    item = sym.mk("idx", F, bv2)
+    if sa.kind == "enumerate":
+      T = as_poly(sa.args[0])
+      if not (elt - sym.mk("idx", item, Poly.const(0))).is_zero():
+        return None
+      # flag is T[bv] or enumerate(T)[bv][1]
+      if flag.kind == "idx" and (as_poly(flag.args[0]) == T and as_poly(flag.args[1]).as_atom() is not None and as_poly(flag.args[1]).as_atom().kind == "bv"):
+        return T, Poly.const(0), sym.mk("len", T)
+      if flag.kind == "idx" and as_poly(flag.args[1]).as_int() == 1:
+        inner = as_poly(flag.args[0]).as_atom()
+        if inner is not None and inner.kind == "idx" and as_poly(inner.args[0]).as_atom() == sa:
+          return T, Poly.const(0), sym.mk("len", T)
+      return None
+    if sa.kind == "range":
+      args = [as_poly(x) for x in sa.args]
+      lo, hi = (Poly.const(0), args[0]) if len(args) == 1 else (args[0], args[1])
+      if len(args) == 3 and args[2].as_int() != 1:
+        return None
+      if not (elt - item).is_zero():
+        return None
+      if flag.kind != "idx":
+        return None
+      T = as_poly(flag.args[0])
+      off = as_poly(flag.args[1])
+      bvs = [x for x in off.atoms() if x.kind == "bv"]
+      if len(bvs) != 1 or not (off - Poly.atom(bvs[0]) - lo).is_zero():
+        return None
+      return T, lo, hi
+    return None
+  if a.kind == "sym":
+    for li in w.loop_info.values():
+      for vis in li.get("visits", []):
+        nm = [n_ for n_, x_ in (vis.get("after_env") or {}).items() if isinstance(x_, Poly) and x_ == val]
+        if not nm or not isinstance(li["node"], ast.For):
+          continue
+        pre = vis["pre_env"].get(nm[0])
+        if not (isinstance(pre, Seq) and not pre.items):
+          return None
+        rg = _range_of(vis)
+        k = as_poly(vis["k"])
+        T = None
+        if rg is not None:
+          lo, hi, st_ = rg
+          if st_.as_int() != 1:
+            return None
+          idxv = lo + k
+        else:
+          ia = as_poly(vis["iter"]).as_atom() if isinstance(vis["iter"], Poly) else None
+          if ia is None or ia.kind != "enumerate":
+            return None
+          T = as_poly(ia.args[0])
+          lo, hi, idxv = Poly.const(0), sym.mk("len", T), k
+        okp = True
+        for kind, v_, st2, since, vv in li["body_paths"]:
+          if vv is not vis:
+            continue
+          if kind not in ("fall", "continue"):
+            return None
+          apps = [w.events[i_] for i_ in st2.trace[since:] if w.events[i_].kind == "mutate" and w.events[i_].data["method"] == "append"]
+          newf = st2.facts[len(vis["head"].facts):]
+          tr = [fc for fc in newf if fc[0] == "truthy" and isinstance(fc[1], Poly) and fc[1].as_atom() is not None and fc[1].as_atom().kind == "idx"]
+          fl = [fc for fc in newf if fc[0] == "falsy" and isinstance(fc[1], Poly) and fc[1].as_atom() is not None and fc[1].as_atom().kind == "idx"]
+          for fc in tr + fl:
+            fa_ = fc[1].as_atom()
+            ix = as_poly(fa_.args[1])
+            base_ = as_poly(fa_.args[0])
+            if rg is None and base_.as_atom() is not None and base_.as_atom().kind == "idx":      # enumerate item: (i, flag)
+              continue
+            if not (ix - idxv).is_zero():
+              okp = False
+            T = base_ if T is None or rg is not None else T
+          if tr and not fl:
+            if len(apps) != 1 or not (isinstance(apps[0].data["args"][0], Poly) and (apps[0].data["args"][0] - idxv).is_zero()):
+              okp = False
+          elif fl and not tr:
+            if apps:
+              okp = False
+          else:
+            okp = False
+        if okp and T is not None:
+          return T, lo, hi
+        return None
+  return None
+
+
 def rule_sieve(ctx):
   """Sieve of Eratosthenes, decided on its structure: a table of n True flags; for every i from 2 up to at least isqrt(n) whose flag is still set, every
   multiple j = i*i, i*i + i, ... below n is cleared (start anywhere in [2i, i*i]); the result lists the indices >= 2 whose flag is set.  Then a composite
@@ -815,8 +936,8 @@ def rule_sieve(ctx):
   if not alloc:
     probs.append("the flag table is not [True] * n")
   fors = [i_ for i_ in w.loop_info.values() if isinstance(i_["node"], ast.For) and i_["visits"]]
-  outer = [i_ for i_ in fors if not any(i_["node"] in ast.walk(o["node"]) and o is not i_ for o in fors)]
-  inner = [i_ for i_ in fors if i_ not in outer]
+  inner = [i_ for i_ in fors if any(i_["node"] in ast.walk(o["node"]) and o is not i_ for o in fors)]
+  outer = [o for o in fors if o not in inner and any(i_["node"] in ast.walk(o["node"]) for i_ in inner)]
   if len(outer) != 1 or len(inner) != 1:
     ctx.incomplete(R, f.where, "sieve of Eratosthenes", "expected one loop over the candidates and one over their multiples")
     return
@@ -869,13 +990,26 @@ def rule_sieve(ctx):
       if not okskip:
         probs.append("a candidate's multiples are skipped although its flag is not known to be cleared")
   rets = [t_ for t_ in w.terminals if t_[0] == "return"]
-  okr = False
+  okr = bool(rets)
   for t_ in rets:
-    a_ = t_[1].as_atom() if isinstance(t_[1], Poly) else None
-    if a_ is not None and a_.kind == "slice" and as_poly(a_.args[1]).as_int() == 2 and repr(a_.args[2]) == "lit('None')" and "enumerate" in repr(a_.args[0]) and "truthy" in repr(a_.args[0]):
-      okr = True
+    v_ = t_[1]
+    cut = 0
+    a_ = v_.as_atom() if isinstance(v_, Poly) else None
+    if a_ is not None and a_.kind == "slice" and repr(a_.args[2]) == "lit('None')" and repr(a_.args[3]) in ("lit('None')", "1") and as_poly(a_.args[1]).as_int() is not None:
+      cut = as_poly(a_.args[1]).as_int()
+      v_ = as_poly(a_.args[0])
+    flt = _index_filter(w, v_)
+    if flt is None:
+      okr = False
+      continue
+    T_, lo_, hi_ = flt
+    # the flags read are those of the sieved table, the indices run to its end, and exactly the indices 0 and 1 are dropped
+    tab_ok = any(isinstance(vis_.get("after_env", {}).get(nm_), Poly) and vis_["after_env"][nm_] == T_ for vis_ in outer[0]["visits"] for nm_ in vis_.get("after_env", {}))
+    end_ok = (hi_ - n).is_zero() or (hi_ - sym.mk("len", T_)).is_zero()
+    if not (tab_ok and end_ok and lo_.as_int() is not None and lo_.as_int() + cut == 2 and (lo_.as_int() == 0 or cut == 0)):
+      okr = False
   if not okr:
-    probs.append("the result is not [i for i, flag in enumerate(table) if flag][2:]")
+    probs.append("the result is not the list of indices i >= 2 whose flag is set ([i for i, flag in enumerate(table) if flag][2:])")
   ctx.record(R, f.where, "sieve of Eratosthenes", not probs, "; ".join(sorted(set(probs))) or "candidates 2..isqrt(n), multiples from i*i in steps of i below n, indices >= 2 with the flag set")
 
 
@@ -1047,7 +1181,7 @@ def rule_linalg(ctx):
         probs.append("the value returned is not the list of solved unknowns")
     nones = [e for e in w.events if e.kind == "return" and isinstance(e.data["value"], Const) and e.data["value"].v is None and not e.data.get("implicit")]
     for e in nones:
-      zero = [fc for fc in e.state.facts if _rel(fc) and _rel(fc)[0] == "==" and _entry(_rel(fc)[1]) is not None]
+      zero = [fc for fc in e.state.facts if _rel(fc) and _rel(fc)[0] == "==" and (_entry(_rel(fc)[1]) is not None or _entry(-_rel(fc)[1]) is not None)]
       if not zero:
         probs.append("None is returned on a path without a zero pivot")
     ctx.record(R, f.where, "back-substitution", not probs, "; ".join(sorted(set(probs))) or "x[i] = (b[i] - sum_{j>i} a[i][j] x[j]) / a[i][i] for i = n-1 .. 0, None at a zero pivot")
